@@ -142,6 +142,15 @@ void backup_create_md5_file(const char *filename)
    {
       md5.Update(buf, len);
    }
+
+   // a read error ends the loop like the end of the file: do not record the MD5 of a part of the file
+   if (ferror(thefile))
+   {
+      LOG_FMT(LERR, "%s: fread(%s) failed: %s (%d)\n",
+              __func__, filename, strerror(errno), errno);
+      fclose(thefile);
+      exit(EX_IOERR);
+   }
    fclose(thefile);
    md5.Final(dig);
 
